@@ -48,6 +48,7 @@ type ListLine struct {
 	HasRet  bool       `json:"hasret"`
 	SnapChg []int      `json:"snapchg"` // indices (steps) of earlier snapshots whose content changed in this step
 	Panic   string     `json:"panic"`
+	Ci      int        `json:"ci"` // index of the case in the input file
 }
 
 type listAdapter interface {
@@ -358,7 +359,7 @@ func listReplay(args []string) {
 		var snaps []snap
 		for i := range c.Ups {
 			u := &c.Ups[i]
-			line := ListLine{Op: "update", U: u, SnapChg: []int{}, Ret: []AbsItem{}}
+			line := ListLine{Op: "update", U: u, SnapChg: []int{}, Ret: []AbsItem{}, Ci: nb}
 			pre := fdata.DataCopyAny()
 			line.Pre = ad.abs(pre)
 			snaps = append(snaps, snap{pre, ser(pre), i})
